@@ -228,6 +228,75 @@ theorem lstsq_recovers_complex (b : Basis ℂ) (hb : WF b)
     (fun z hz => Complex.normSq_eq_zero.mp hz) (linComb b)
     (fun x y => by rw [linComb_length b hb, linComb_length b hb]) b.nmodes hind c x hc hx hmin
 
+/-- **A certified answer of the model is a least-squares solution** — real scalars.  The driver
+answers `lstsq` with `x` only after checking, exactly, `x.length = nmodes` and
+`normalResidual conj b x y = 0` (`Aᴴ (A x − y) = 0`) on the output of the Gauss–Jordan model
+`ModeBasis.lstsq`; these two decidable facts are the hypotheses here.  Conclusion: `x` minimises
+`‖A z − y‖²` over all coefficient vectors, in every storage form. -/
+theorem normal_eq_minimises {R : Type} [Field R] [LinearOrder R] [IsStrictOrderedRing R]
+    (b : Basis R) (hb : WF b) (x y : List R) (hx : x.length = b.nmodes) (hy : y.length = b.npix)
+    (h : ∀ t ∈ normalResidual id b x y, t = 0) :
+    ∀ z : List R, z.length = b.nmodes →
+      resid (fun t => t * t) (linComb b x) y ≤ resid (fun t => t * t) (linComb b z) y :=
+  fun z hz => normal_eq_minimises_gen (RingHom.id R) (AddMonoidHom.id R) (fun t => t * t)
+    (fun a b => by simp only [RingHom.id_apply, AddMonoidHom.id_apply]; ring)
+    (fun t => mul_self_nonneg t) b hb x y hx hy h z hz
+
+/-- The same over ℂ (`conj` = complex conjugation, squared modulus). -/
+theorem normal_eq_minimises_complex (b : Basis ℂ) (hb : WF b) (x y : List ℂ)
+    (hx : x.length = b.nmodes) (hy : y.length = b.npix)
+    (h : ∀ t ∈ normalResidual (starRingEnd ℂ) b x y, t = 0) :
+    ∀ z : List ℂ, z.length = b.nmodes →
+      resid Complex.normSq (linComb b x) y ≤ resid Complex.normSq (linComb b z) y :=
+  fun z hz => normal_eq_minimises_gen (starRingEnd ℂ) Complex.reAddGroupHom Complex.normSq
+    (fun a b => by rw [Complex.normSq_add, mul_comm ((starRingEnd ℂ) b) a]; rfl)
+    Complex.normSq_nonneg b hb x y hx hy h z hz
+
+/-- **Hence the model's certified `coefficients_for` reproduces the coefficients of independent
+modes**: what the driver prints for `y = A·c` (it passed the exact normal-equations check) is
+`c`.  This is `lstsq_recovers` with its minimiser hypothesis discharged for the model. -/
+theorem lstsq_certified_recovers {R : Type} [Field R] [LinearOrder R] [IsStrictOrderedRing R]
+    (b : Basis R) (hb : WF b)
+    (hind : ∀ x y : List R, x.length = b.nmodes → y.length = b.nmodes → linComb b x = linComb b y → x = y)
+    (c x : List R) (hc : c.length = b.nmodes) (hx : x.length = b.nmodes)
+    (h : ∀ t ∈ normalResidual id b x (linComb b c), t = 0) : x = c :=
+  lstsq_recovers b hb hind c x hc hx fun z hz =>
+    normal_eq_minimises b hb x (linComb b c) hx (linComb_length b hb c) h z hz
+
+theorem lstsq_certified_recovers_complex (b : Basis ℂ) (hb : WF b)
+    (hind : ∀ x y : List ℂ, x.length = b.nmodes → y.length = b.nmodes → linComb b x = linComb b y → x = y)
+    (c x : List ℂ) (hc : c.length = b.nmodes) (hx : x.length = b.nmodes)
+    (h : ∀ t ∈ normalResidual (starRingEnd ℂ) b x (linComb b c), t = 0) : x = c :=
+  lstsq_recovers_complex b hb hind c x hc hx fun z hz =>
+    normal_eq_minimises_complex b hb x (linComb b c) hx (linComb_length b hb c) h z hz
+
+/-- **`coefficients_for` does not depend on the storage form**: bases that denote the same
+matrix give the same answer (the same coefficients, or the same "dependent modes" failure) of the
+executable least-squares model, for every right-hand side and every scalar type. -/
+theorem coefficients_storage_independent {K : Type} [AddCommMonoid K] [Sub K] [Mul K] [Div K]
+    [DecidableEq K] (conj : K → K) (a b : Basis K) (h : Same a b) (y : List K) :
+    lstsq conj a y = lstsq conj b y := by
+  have hcol : ∀ j ∈ List.range a.nmodes, column a j = column b j := by
+    intro j hj
+    unfold column
+    rw [← h.1]
+    apply List.map_congr_left
+    intro i hi
+    exact ent_of_toDense_eq a b h i j (List.mem_range.mp hi) (List.mem_range.mp hj)
+  have hcols : (List.range a.nmodes).map (column a) = (List.range b.nmodes).map (column b) := by
+    rw [← h.2.1]; exact List.map_congr_left hcol
+  have hadj : adjRows conj a = adjRows conj b := by
+    unfold adjRows
+    rw [← h.2.1]
+    exact List.map_congr_left fun j hj => by rw [hcol j hj]
+  unfold lstsq
+  simp only [hcols, hadj]
+  rw [h.2.1]
+
+/-- the certificate is satisfiable: `x = [2]` solves the normal equations of `A = [[1],[1]]`,
+`y = [1,3]` (and is not an exact solution of `A x = y`) -/
+example : ∀ t ∈ normalResidual id (fromDense 2 1 [[(1 : ℚ)], [1]]) [2] [1, 3], t = 0 := by decide +kernel
+
 end lstsq
 
 section mirror
